@@ -57,6 +57,11 @@ CHECKS = {
   "Each input history is executed four times and the full output trace (instant, destination, ECN, segment size, byte hash of every Transmit; every Event and EndpointEvent) compared: exact replay, all instants shifted by 1 us..49 days, spurious handle_timeout / extra poll calls inserted. Timer servicing at one instant settles within 64 rounds, poll_transmit after None stays None, drained connections are silent for every poll, and a steady-state transfer under strace performs no getrandom().",
   "plaintext lane with seeded endpoints, harness CID generator and virtual TimeSource; rustls lane and thread-RNG CID generators are out of scope by construction",
   "DESIGN.md section 4 C20"),
+ "C04": ("exploration",
+  "runtime monitoring: duplicate-delta and forged-datagram oracles on every delivery, frame conservation (receiver frame_rx <= sender frame_tx), forged-injection insensitivity, reset-token acceptance oracle; rustls and plaintext lanes",
+  "Heavy duplication and late verbatim replays (including the connection-creating Initial) and forged variants of genuine datagrams (bit flips, truncation, cross-connection header splice, garbage, altered tags): a datagram already authenticated once changes no frame counter when delivered again, a forged one changes none, counters balance per frame type, a loss-free run with 40 % forged injections ends with the same per-stream outcomes as without, and only the exact issued reset token for the CID in use resets a connection.",
+  "forging is sampled (none of the injected variants was accepted), not excluded; plaintext-lane truncation forgeries are excluded because plaintext exposes reset tokens",
+  "DESIGN.md section 4 C04"),
 }
 NOT_YET = "check not built yet (work in progress; see DESIGN.md section 4)"
 
